@@ -257,6 +257,50 @@ pub fn c14_str_ident_body<S: Src>(s: &mut S) {
     cover!("cover:reject-non-ascii-start", !r.has_output() && n >= 1 && !cs[0].is_ascii());
 }
 
+/// @harness props=C14:Q,C20:T n=2 err=Cheap timeout=900 input=&str_of_up_to_2_chars:_the_first_ANY_Unicode_scalar_value,_the_second_from_{a,7,_,é,U+0301,space}
+/// @shape text::unicode::ident() then rest, on &str
+/// @symbolic first character: 21 bits constrained to a valid scalar value; second: index 0..=5; number of characters 0..=2
+/// @aims unicode::ident = (XID_Start | _) XID_Continue* over CHARACTERS (the XID classification itself is the given one: the oracle asks chumsky's own Char::is_ident_start / is_ident_continue per character; decided here: the start / continue structure and the returned slice)
+pub fn c14_unicode_ident_body<S: Src>(s: &mut S) {
+    use chumsky::text::Char;
+    const AL2: [char; 6] = ['a', '7', '_', 'é', '\u{301}', ' '];
+    let v = ((s.u8() as u32) << 16 | (s.u8() as u32) << 8 | s.u8() as u32) & 0x1f_ffff;
+    let c0 = match char::from_u32(v) {
+        Some(c) => c,
+        None => {
+            crate::sym::assume(false);
+            'a'
+        }
+    };
+    let c1 = AL2[s.upto(5) as usize];
+    let n = s.upto(2) as usize;
+    let mut buf = [0u8; 8];
+    let mut len = 0usize;
+    if n >= 1 {
+        len += c0.encode_utf8(&mut buf[len..]).len();
+    }
+    if n >= 2 {
+        len += c1.encode_utf8(&mut buf[len..]).len();
+    }
+    let x = unsafe { core::str::from_utf8_unchecked(&buf[..len]) };
+    let r = text::unicode::ident::<&str, X>().then(any::<&str, X>().repeated().to_slice()).parse(x);
+    contract(&r);
+    let mut want = 0usize;
+    if n >= 1 && c0.is_ident_start() {
+        want = c0.len_utf8();
+        if n >= 2 && c1.is_ident_continue() {
+            want += c1.len_utf8();
+        }
+    }
+    check!("C14:unicode-ident", r.has_output() == (want > 0));
+    if let Some((id, rest)) = r.output() {
+        check!("C14:unicode-ident-extent", id.len() == want && rest.len() == x.len() - want);
+        check!("C14:returns-the-matched-slice-of-the-input", id.as_ptr() == x.as_ptr());
+    }
+    cover!("cover:non-ascii-start", r.has_output() && n == 2 && !c0.is_ascii());
+    cover!("cover:reject", !r.has_output() && n >= 1);
+}
+
 /// @harness props=C14:Q,C20:T n=2 err=Cheap timeout=900 input=ASCII
 /// @shape whitespace / ascii::ident / int(10) each on &str and on &[u8] for the same ASCII text (symbolic choice)
 /// @symbolic 2 bytes < 128; which 0..=2
@@ -295,5 +339,6 @@ crate::harnesses! {
     c14_whitespace [6] = c14_whitespace_body;
     c14_newline [8] = c14_newline_body;
     c14_str_ident [8] = c14_str_ident_body;
+    c14_unicode_ident [8] = c14_unicode_ident_body;
     c14_str_vs_bytes [5] = c14_str_vs_bytes_body;
 }
